@@ -249,7 +249,10 @@ class ReqHarness:
             w.io_eof(w.sock)
         elif label == "force":
             w.forced = True
-            w.conn.force_disconnect()
+            try:
+                w.conn.force_disconnect()
+            except Exception as e:  # noqa: BLE001
+                w.viol.append(f"C11:closed:force_disconnect() raised {type(e).__name__}: {e} while calls were outstanding")
             w._after(None)
         elif label == "time":
             kind = "time"
